@@ -379,6 +379,7 @@ def run(chk, repo, tier):
     run_z12_z14(chk, repo)
     run_z15_z17(chk, repo)
     run_z18_z19(chk, repo)
+    run_z20(chk, repo)
 
 
 def run_more(chk, repo):
@@ -789,3 +790,37 @@ def run_z18_z19(chk, repo):
                               f'normalisation', line=c.lineno,
                               witness='a phi file written by SAEM or BAYES: PhiTable.iofv raises KeyError, _parse_phi swallows it '
                                       'and individual_ofv / individual_estimates are silently None')
+
+
+def run_z20(chk, repo):
+    """Z20: ext-files of NONMEM 7.2 have no -1000000006 (FIXED) row; the fallback of _get_fixed_parameters takes the flags of the
+    model parameters from the model and must flag every other ext column (the structural zeros of a diagonal OMEGA/SIGMA, which
+    NONMEM prints but never estimates) as fixed: the constant that fills the flags of the non-model columns is True."""
+    Z20 = chk.rule('Z20', '_get_fixed_parameters (no FIXED row in the ext-file): columns that are not model parameters are '
+                          'flagged fixed (fill constant True)', floor=1)
+    rm = repo.module('pharmpy.tools.external.nonmem.results')
+    f = rm.functions.get('_get_fixed_parameters')
+    if f is None:
+        raise AnalysisError('Z20: _get_fixed_parameters not found')
+    fills = []
+    for c in ast.walk(f.node):
+        if not isinstance(c, ast.Call):
+            continue
+        nm = (dotted(c.func) or unparse(c.func)).split('.')[-1]
+        if nm == 'Series' and c.args and isinstance(c.args[0], ast.Constant) and isinstance(c.args[0].value, bool):
+            fills.append((c, c.args[0].value))
+        for k in c.keywords:
+            if k.arg in ('fill_value', 'value') and isinstance(k.value, ast.Constant) and isinstance(k.value.value, bool):
+                fills.append((c, k.value.value))
+        if nm in ('fillna', 'full') and c.args and isinstance(c.args[-1], ast.Constant) and isinstance(c.args[-1].value, bool):
+            fills.append((c, c.args[-1].value))
+    if not fills:
+        raise AnalysisError('Z20: no boolean fill constant for the non-model columns found in _get_fixed_parameters')
+    for c, v in fills:
+        chk.instance(Z20, f'_get_fixed_parameters: {unparse(c)[:70]}: fill {v}')
+        if v is not True:
+            chk.violation(Z20, rm.rel, f.qualname, unparse(c)[:80],
+                          'ext columns that are not parameters of the model (OMEGA(2,1) of a diagonal OMEGA) are flagged as '
+                          'estimated: they appear in parameter_estimates, standard_errors and the matrices', line=c.lineno,
+                          witness='pheno_real with the -1000000006 row removed from the ext-file: parameter_estimates gains '
+                                  "'OMEGA(2,1)'")
